@@ -1039,6 +1039,9 @@ func derivesFromEnvelopes(v ssa.Value, depth int) bool {
 	if depth > 6 {
 		return false
 	}
+	if _, _, ok := subMapFromHelper(v); ok {
+		return true
+	}
 	v = resolve(v)
 	switch x := v.(type) {
 	case *ssa.Lookup:
